@@ -32,8 +32,10 @@ structure Codec where
   /-- `none` = the encoder panics -/
   encode : String → Pt → Option (List Nat)
   decode : String → List Nat → Option Pt
-  /-- a valid element of the type: on the curve and, where the type promises it, in the subgroup -/
-  valid : Pt → Bool
+  /-- a valid element of the type: on the curve and, where the type promises it, in the subgroup
+  (decided with the inversion-free arithmetic; on a deterministic quarter of the points the affine
+  reference law `Curves.inSubgroup` is evaluated too, `none` = the two disagree) -/
+  valid : Pt → Option Bool
   aff : List Nat → List Nat → Option Pt
   affx : Option (List Nat → Nat → Option Pt)
   /-- the decoder's result is only determined up to sign (curve25519 `u`-only form) -/
@@ -41,6 +43,18 @@ structure Codec where
   /-- expected byte length of a format (0 = not fixed) -/
   len : String → Nat
   weierstrass : Bool
+  /-- tag byte / flag bits of a (base-format) byte string are among those the format defines -/
+  flagsOk : String → List Nat → Bool := fun _ _ => true
+
+def sec1Flags (f : String) (bs : List Nat) : Bool :=
+  match bs with
+  | t :: _ => if f == "compressed" then t == 2 || t == 3 else t == 4
+  | [] => false
+
+def blsFlags (f : String) (bs : List Nat) : Bool :=
+  match bs with
+  | b0 :: _ => if f == "compressed" then b0 / 128 % 2 == 1 && !(b0 / 64 % 2 == 1 && b0 / 32 % 2 == 1) else true
+  | [] => false
 
 def fmtBase (mont : Bool) (f : String) : Option String :=
   if f == "compressed" || f == "bytes" then some "compressed"
@@ -60,12 +74,19 @@ def mkDecode (mont : Bool) (dec : String → List Nat → Option Pt) (f : String
   | some b => if f == "cbor" then (Cbor.unwrap? bs).bind (dec b) else dec b bs
 
 def codec? (name : String) : Option Codec :=
-  let mk (C : Params) (mont : Bool) (sub : Bool) (wei : Bool)
+  let mk (C : Params) (mont : Bool) (sub : Option (Pt → Bool)) (wei : Bool)
       (enc : String → Pt → Option (List Nat)) (dec : String → List Nat → Option Pt)
       (aff : List Nat → List Nat → Option Pt) (affx : Option (List Nat → Nat → Option Pt))
       (lc lu : Nat) : Codec :=
     { C := C, encode := mkEncode mont enc, decode := mkDecode mont dec,
-      valid := fun P => if sub then inSubgroup C P else onCurve C P,
+      valid := fun P => match sub with
+        | none => some (onCurve C P)
+        | some fast =>
+          let f := onCurve C P && fast P
+          let sampled := match P.coords with
+            | some (x, _) => x.headD 0 % 4 == 0
+            | none => true
+          if sampled then (if inSubgroup C P == f then some f else none) else some f,
       aff := aff, affx := affx,
       upToSign := fun f => mont && (f == "compressed" || f == "bytes"),
       len := fun f => if f == "compressed" || f == "bytes" then lc else if f == "uncompressed" then lu else 0,
@@ -74,7 +95,7 @@ def codec? (name : String) : Option Codec :=
     let io := fpIO q
     let a := Fp.ofNat q C.a
     let b := Fp.ofNat q C.b
-    some <| mk C false false true
+    some <| mk C false none true
       (fun f P => some (if f == "compressed" then Sec1.encodeCompressed io 32 (wOf P) else Sec1.encodeUncompressed io 32 (wOf P)))
       (fun f bs => (if f == "compressed" then Sec1.decodeCompressed io a b 32 bs else Sec1.decodeUncompressed io a b 32 bs).map wTo)
       (fun x y => (fromAffineW a b (Fp.ofNat q (x.headD 0)) (Fp.ofNat q (y.headD 0))).map wTo)
@@ -84,7 +105,7 @@ def codec? (name : String) : Option Codec :=
     let io := fpIO q
     let a := Fp.ofNat q C.a
     let b := Fp.ofNat q C.b
-    some <| mk C false false true
+    some <| mk C false none true
       (fun f P => some (if f == "compressed" then Pasta.encodeCompressed io 32 (wOf P) else Pasta.encodeUncompressed io 32 (wOf P)))
       (fun f bs => (if f == "compressed" then Pasta.decodeCompressed io a b 32 bs else Pasta.decodeUncompressed io a b 32 bs).map wTo)
       (fun x y => (fromAffineW a b (Fp.ofNat q (x.headD 0)) (Fp.ofNat q (y.headD 0))).map wTo)
@@ -96,7 +117,7 @@ def codec? (name : String) : Option Codec :=
     let a := Fp.ofNat q C.a
     let d := Fp.ofNat q C.b
     let flt (r : Option (EPt (Fp q))) : Option Pt := ((if sub then Ed.subOnly a d C.n r else r)).map eTo
-    some <| mk C false sub false
+    some <| mk C false (if sub then some (fun P => Ed.inSub a d C.n (eOf P)) else none) false
       (fun f P => some (if f == "compressed" then Ed.encodeCompressed io 32 (eOf P) else Ed.encodeUncompressed io 32 (eOf P)))
       (fun f bs => flt (if f == "compressed" then Ed.decodeCompressed io a d 32 bs else Ed.decodeUncompressed io a d 32 bs))
       (fun x y => flt (Ed.fromAffine a d (Fp.ofNat q (x.headD 0)) (Fp.ofNat q (y.headD 0))))
@@ -108,37 +129,37 @@ def codec? (name : String) : Option Codec :=
     let d := Fp.ofNat q C.b
     let c := Fp.ofNat q montC
     let flt (r : Option (EPt (Fp q))) : Option Pt := ((if sub then Ed.subOnly a d C.n r else r)).map eTo
-    some <| mk C true sub false
+    some <| mk C true (if sub then some (fun P => Ed.inSub a d C.n (eOf P)) else none) false
       (fun f P => if f == "compressed" then Mont.encodeCompressed io 32 (eOf P) else Mont.encodeUncompressed io c 32 (eOf P))
       (fun f bs => flt (if f == "compressed" then Mont.decodeCompressed io a d 32 bs else Mont.decodeUncompressed io a d c 32 bs))
       (fun x y => flt (Mont.fromAffine io a d c 32 (Fp.ofNat q (x.headD 0)) (Fp.ofNat q (y.headD 0))))
       none 32 64
-  if name == "k256" then sec1 k256
-  else if name == "p256" then sec1 p256
+  if name == "k256" then (sec1 k256).map fun c => { c with flagsOk := sec1Flags }
+  else if name == "p256" then (sec1 p256).map fun c => { c with flagsOk := sec1Flags }
   else if name == "pallas" then pasta pallas
   else if name == "vesta" then pasta vesta
   else if name == "ed25519" then ed false
   else if name == "ed25519sub" then ed true
   else if name == "curve25519" then mont false
   else if name == "curve25519sub" then mont true
-  else if name == "bls12381g1" then withPrime blsP none fun q =>
+  else if name == "bls12381g1" then (fun (o : Option Codec) => o.map fun c => { c with flagsOk := blsFlags }) <| withPrime blsP none fun q =>
     let C := bls12381g1
     let io := g1IO q
     let a := Fp.ofNat q C.a
     let b := Fp.ofNat q C.b
-    some <| mk C false true true
+    some <| mk C false (some fun P => Bls.inSub a C.n (wOf (q := q) P)) true
       (fun f P => some (if f == "compressed" then Bls.encodeCompressed io 48 (wOf P) else Bls.encodeUncompressed io 48 (wOf P)))
       (fun f bs => (if f == "compressed" then Bls.decodeCompressed io a b C.n 48 bs else Bls.decodeUncompressed io a b C.n 48 bs).map wTo)
       (fun x y => (Bls.fromAffine a b C.n (Fp.ofNat q (x.headD 0)) (Fp.ofNat q (y.headD 0))).map wTo)
       (some fun x odd => (fromAffineX (fpIO q) a b (Fp.ofNat q (x.headD 0)) odd).map wTo)
       48 96
-  else if name == "bls12381g2" then withPrime blsP none fun q =>
+  else if name == "bls12381g2" then (fun (o : Option Codec) => o.map fun c => { c with flagsOk := blsFlags }) <| withPrime blsP none fun q =>
     let C := bls12381g2
     let io := g2IO q
     let a : Fp2 q := ⟨Fp.ofNat q C.a, Fp.ofNat q 0⟩
     let b : Fp2 q := ⟨Fp.ofNat q C.b, Fp.ofNat q C.b1⟩
     let fe (x : List Nat) : Fp2 q := ⟨Fp.ofNat q (x.getD 0 0), Fp.ofNat q (x.getD 1 0)⟩
-    some <| mk C false true true
+    some <| mk C false (some fun P => Bls.inSub a C.n (w2Of (q := q) P)) true
       (fun f P => some (if f == "compressed" then Bls.encodeCompressed io 48 (w2Of P) else Bls.encodeUncompressed io 48 (w2Of P)))
       (fun f bs => (if f == "compressed" then Bls.decodeCompressed io a b C.n 48 bs else Bls.decodeUncompressed io a b C.n 48 bs).map w2To)
       (fun x y => (Bls.fromAffine a b C.n (fe x) (fe y)).map w2To)
@@ -190,8 +211,11 @@ def decVerdict (cd : Codec) (keyInvalid : String) (upToSign : Bool) (model : Opt
   else match parseOk? C rhs with
     | none => .unsupported "rhs"
     | some P =>
-      if !cd.valid P then .bad keyInvalid ("accepted bytes denote an invalid element: " ++ rhs)
-      else if upToSign then
+      match cd.valid P with
+      | none => .unsupported "projective and affine subgroup tests disagree"
+      | some false => .bad keyInvalid ("accepted bytes denote an invalid element: " ++ rhs)
+      | some true =>
+      if upToSign then
         match model with
         | some M => if P == M || P == neg C M then .ok else .diff (renderDec C model)
         | none => .diff "reject"
@@ -241,6 +265,8 @@ def handlePoint (op cv fmt : String) (args : List String) (rhs : String) : Verdi
         let model := cd.decode fmt b
         if rhs.startsWith "ok:" && cd.len fmt != 0 && b.length != cd.len fmt then
           .bad ("decode-len-" ++ cv ++ "-" ++ baseName cd fmt) ("accepted " ++ toString b.length ++ " bytes")
+        else if rhs.startsWith "ok:" && !(cd.flagsOk (baseName cd fmt) (if fmt == "cbor" then (Cbor.unwrap? b).getD [] else b)) then
+          .bad ("decode-flags-" ++ cv ++ "-" ++ baseName cd fmt) ("accepted a tag/flag combination outside the format: " ++ rhs)
         else decVerdict cd ("decode-invalid-" ++ cv ++ "-" ++ baseName cd fmt) (cd.upToSign fmt) model rhs
     | _, _ => .unsupported ("C13 op " ++ op)
 
